@@ -70,7 +70,22 @@ const (
 	// the announced transaction; then silent / reject after the tx.
 	l2ForeignAccept = "foreignfirst-accept"
 	l2ForeignReject = "foreignfirst-reject"
+	// A scripted SEQUENCE of replies (reply-sequence family, l2seq.go): the
+	// steps of OnInv are sent when the inv arrives, the steps of OnTx when the
+	// transaction arrives for the first time after that inv.
+	l2Seq = "seq"
 )
+
+// L2Step is one message of a scripted reply sequence.
+type L2Step struct {
+	// Do: "getdata" (request the announced transaction), "reject" (reject
+	// naming the announced transaction, class Class), "reject-other" (reject
+	// naming a hash no transaction has, class Class).
+	Do    string `json:"do"`
+	Class string `json:"class,omitempty"`
+	// GapMs is the pause before the message is written.
+	GapMs int `json:"gap_ms,omitempty"`
+}
 
 // L2Reaction is the scripted reaction of one peer to one transaction.
 type L2Reaction struct {
@@ -82,9 +97,32 @@ type L2Reaction struct {
 	// transaction of the previous SendTransaction call, else a hash no
 	// transaction has.
 	Foreign string `json:"foreign,omitempty"`
+	// Kind seq: the messages sent on the inv and on the first arrival of the
+	// transaction; Tmpl names the template the sequence was drawn from.
+	Tmpl  string   `json:"tmpl,omitempty"`
+	OnInv []L2Step `json:"on_inv,omitempty"`
+	OnTx  []L2Step `json:"on_tx,omitempty"`
+}
+
+func l2StepsString(st []L2Step) string {
+	var parts []string
+	for _, x := range st {
+		t := x.Do
+		if x.Class != "" {
+			t += ":" + x.Class
+		}
+		if x.GapMs > 0 {
+			t += fmt.Sprintf("@%dms", x.GapMs)
+		}
+		parts = append(parts, t)
+	}
+	return strings.Join(parts, ",")
 }
 
 func (r L2Reaction) String() string {
+	if r.Kind == l2Seq {
+		return "seq/" + r.Tmpl + "[" + l2StepsString(r.OnInv) + " | " + l2StepsString(r.OnTx) + "]"
+	}
 	s := r.Kind
 	if r.Class != "" {
 		s += ":" + r.Class
@@ -130,6 +168,19 @@ type L2CallView struct {
 	Concurrent string            `json:"concurrency"`
 	DurMs      int64             `json:"call_ms"`
 	Unclear    string            `json:"inconclusive,omitempty"`
+	// One vote per peer. RejectsWritten lists, per peer, the class of EVERY
+	// reject naming the transaction the peer wrote before the call returned,
+	// in order (clearly late ones left out); a peer's vote is the first one.
+	// Repeated = peers that wrote more than one. InvalidAny / FailAllowAny:
+	// the most permissive reading, in which a peer calls the transaction
+	// invalid if ANY of its rejects in time says so (differs from Invalid /
+	// FailAllow only for a peer that changed its mind).
+	RejectsWritten map[string][]string `json:"rejects_written_per_peer,omitempty"`
+	Repeated       []string            `json:"peers_that_rejected_more_than_once,omitempty"`
+	DupGetdata     []string            `json:"peers_that_requested_more_than_once,omitempty"`
+	InvalidAny     []string            `json:"Inv_any_reject_of_the_peer_says_invalid,omitempty"`
+	InvShareAny    float32             `json:"invalid_share_any_reading,omitempty"`
+	FailAllowAny   bool                `json:"failure_allowed_any_reading"`
 }
 
 // l2Observe derives, for one call, what each peer provably did for the
@@ -165,6 +216,10 @@ func l2Observe(evs []l2Ev, c *l2Call, peers []string, window time.Duration, thr 
 		rejClass       string
 		other, late    bool
 		otherFirst     bool // a reject naming another hash was written before the getdata
+		rejFirst       bool // the peer's first reject of the tx was written before its first getdata
+		nGet           int
+		rejs           []string        // classes of all rejects naming the tx, in order
+		rejT           []time.Duration // when they were written
 	}
 	st := map[string]*per{}
 	for _, p := range peers {
@@ -180,14 +235,17 @@ func l2Observe(evs []l2Ev, c *l2Call, peers []string, window time.Duration, thr 
 		}
 		switch e.What {
 		case "tx-getdata":
+			s.nGet++
 			if !s.hasGet {
 				s.hasGet, s.get = true, e.T
+				s.rejFirst = s.hasRej
 			}
 		case "rx-tx":
 			if !s.hasTx {
 				s.hasTx, s.rxtx = true, e.T
 			}
 		case "tx-reject":
+			s.rejs, s.rejT = append(s.rejs, e.Class), append(s.rejT, e.T)
 			if !s.hasRej {
 				s.hasRej, s.rej, s.rejClass = true, e.T, e.Class
 			}
@@ -216,6 +274,9 @@ func l2Observe(evs []l2Ev, c *l2Call, peers []string, window time.Duration, thr 
 		if s.hasGet {
 			v.Requested = append(v.Requested, p)
 		}
+		if s.nGet > 1 {
+			v.DupGetdata = append(v.DupGetdata, p)
+		}
 		obs := "silent"
 		switch {
 		case inR:
@@ -224,10 +285,37 @@ func l2Observe(evs []l2Ev, c *l2Call, peers []string, window time.Duration, thr 
 			if cl.Want == pushtx.Invalid {
 				v.Invalid = append(v.Invalid, p)
 			}
-			if s.hasGet {
+			switch {
+			case s.hasGet && s.rejFirst:
+				obs = "req-after-reject:" + cl.Want.String()
+			case s.hasGet:
 				obs = "req-reject:" + cl.Want.String()
-			} else {
+			default:
 				obs = "noreq-reject:" + cl.Want.String()
+			}
+			// Every reject of the peer that is not clearly late, for the
+			// permissive reading and the witness.
+			anyInv := false
+			var written []string
+			for i, rc := range s.rejs {
+				if s.hasTx && s.rejT[i]-s.rxtx >= 4*window {
+					continue
+				}
+				written = append(written, rc)
+				if l2ClassByName(rc).Want == pushtx.Invalid {
+					anyInv = true
+				}
+			}
+			if v.RejectsWritten == nil {
+				v.RejectsWritten = map[string][]string{}
+			}
+			v.RejectsWritten[p] = written
+			if anyInv {
+				v.InvalidAny = append(v.InvalidAny, p)
+			}
+			if len(written) > 1 {
+				v.Repeated = append(v.Repeated, p)
+				obs += "(repeated)"
 			}
 		case s.hasGet && s.late:
 			obs = "req-accept(late-reject-ignored)"
@@ -244,6 +332,9 @@ func l2Observe(evs []l2Ev, c *l2Call, peers []string, window time.Duration, thr 
 	sort.Strings(v.Requested)
 	sort.Strings(v.Rejected)
 	sort.Strings(v.Invalid)
+	sort.Strings(v.InvalidAny)
+	sort.Strings(v.Repeated)
+	sort.Strings(v.DupGetdata)
 	replying := map[string]bool{}
 	for _, p := range v.Requested {
 		replying[p] = true
@@ -266,6 +357,10 @@ func l2Observe(evs []l2Ev, c *l2Call, peers []string, window time.Duration, thr 
 		v.InvShare = float32(len(v.Invalid)) / float32(len(replying))
 	}
 	v.FailAllow = v.AllReject || (len(replying) > 0 && v.InvShare >= thr)
+	if len(replying) > 0 {
+		v.InvShareAny = float32(len(v.InvalidAny)) / float32(len(replying))
+	}
+	v.FailAllowAny = v.FailAllow || (len(replying) > 0 && v.InvShareAny >= thr)
 	// Normalised shape: which kinds of reaction were present (silence is no
 	// reply and is left out), not how many peers or which ones.
 	var parts []string
@@ -285,6 +380,16 @@ func l2Observe(evs []l2Ev, c *l2Call, peers []string, window time.Duration, thr 
 // l2Coarse folds the reject code into invalid / other for signatures (an
 // ignored late or other-hash reject stays visible: it is a different cause).
 func l2Coarse(obs string) string {
+	if i := strings.Index(obs, "-reject:"); i > 0 {
+		code, suffix := obs[i+len("-reject:"):], ""
+		if j := strings.IndexByte(code, '('); j >= 0 {
+			code, suffix = code[:j], code[j:]
+		}
+		if code == pushtx.Invalid.String() {
+			return obs[:i] + "-reject:invalid" + suffix
+		}
+		return obs[:i] + "-reject:other" + suffix
+	}
 	if strings.IndexByte(obs, '(') > 0 {
 		return obs
 	}
